@@ -65,6 +65,63 @@ Ltac iters_case :=
 Ltac iters_read :=
   match goal with |- context [match read ?a ?r with _ => _ end] => destruct (read a r) end.
 
+(* ---------------- closed forms of the std defaults nth / count / last, for ANY `next` that walks a window ---------------- *)
+Section DefaultsClosed.
+  Variable strs : list sref.
+  Variable nxt : state -> state * result sref.
+  Variable S : N -> N -> state.
+  Variable mk : N -> sref -> yv sref.
+  Variable bound : N.
+  Hypothesis Hb : bound <= N.of_nat (List.length strs).
+  Hypothesis Hn : forall lo hi, lo <= hi -> hi <= bound ->
+    nxt (S lo hi) = if lo <? hi then (S (lo + 1) hi, ROpt (option_map (mk lo) (nth_error strs (N.to_nat lo))))
+                    else (S lo hi, ROpt None).
+
+  Lemma nth_error_some : forall i, i < bound -> exists r, nth_error strs (N.to_nat i) = Some r.
+  Proof. intros i Hi. destruct (nth_error strs (N.to_nat i)) eqn:E; [eauto|]. apply nth_error_None in E. lia. Qed.
+
+  Lemma default_nth_closed : forall k lo hi, lo <= hi -> hi <= bound ->
+    default_nth nxt k (S lo hi) =
+      if lo + N.of_nat k <? hi
+      then (S (lo + N.of_nat k + 1) hi,
+            ROpt (option_map (mk (lo + N.of_nat k)) (nth_error strs (N.to_nat (lo + N.of_nat k)))))
+      else (S hi hi, ROpt None).
+  Proof.
+    induction k as [|k IH]; intros lo hi H1 H2; cbn [default_nth]; rewrite Hn by assumption.
+    - replace (lo + N.of_nat 0) with lo by lia. destruct (lo <? hi) eqn:E; [reflexivity|].
+      assert (lo = hi) by lia; subst; reflexivity.
+    - destruct (lo <? hi) eqn:E.
+      + destruct (nth_error_some lo ltac:(lia)) as [r Hr]. rewrite Hr. cbn [option_map].
+        rewrite IH by lia. replace (lo + 1 + N.of_nat k) with (lo + N.of_nat (Datatypes.S k)) by lia. reflexivity.
+      + assert (lo = hi) by lia; subst.
+        destruct (hi + N.of_nat (Datatypes.S k) <? hi) eqn:E2; [lia | reflexivity].
+  Qed.
+
+  Lemma default_count_closed : forall fuel lo hi acc, lo <= hi -> hi <= bound -> (N.to_nat (hi - lo) < fuel)%nat ->
+    default_count nxt fuel (S lo hi) acc = RLen (acc + (hi - lo)).
+  Proof.
+    induction fuel as [|f IH]; intros lo hi acc H1 H2 H3; [lia|].
+    cbn [default_count]. rewrite Hn by assumption. destruct (lo <? hi) eqn:E.
+    - destruct (nth_error_some lo ltac:(lia)) as [r Hr]. rewrite Hr. cbn [option_map].
+      rewrite IH by lia. f_equal. lia.
+    - f_equal. lia.
+  Qed.
+
+  Lemma default_last_closed : forall fuel lo hi acc, lo <= hi -> hi <= bound -> (N.to_nat (hi - lo) < fuel)%nat ->
+    default_last nxt fuel (S lo hi) acc =
+      ROpt (if lo <? hi then option_map (mk (hi - 1)) (nth_error strs (N.to_nat (hi - 1))) else acc).
+  Proof.
+    induction fuel as [|f IH]; intros lo hi acc H1 H2 H3; [lia|].
+    cbn [default_last]. rewrite Hn by assumption. destruct (lo <? hi) eqn:E; [|reflexivity].
+    destruct (nth_error_some lo ltac:(lia)) as [r Hr]. rewrite Hr. cbn [option_map].
+    rewrite IH by lia. destruct (lo + 1 <? hi) eqn:E2; [reflexivity|].
+    replace (hi - 1) with lo by lia. rewrite Hr. reflexivity.
+  Qed.
+End DefaultsClosed.
+
+Definition mk_iter (i : N) (r : sref) : yv sref := YPair (YKey i) (YVal r).
+Definition mk_str (i : N) (r : sref) : yv sref := YVal r.
+
 Section Proofs.
   Variable keycap : N.
   Notation try_key := (Rodeo.try_key keycap).
@@ -148,6 +205,141 @@ Section Proofs.
   Proof.
     intros; unfold run_named; cbn; rewrite ?N.eqb_refl; repeat split; reflexivity.
   Qed.
+  (* ---------------- overrides of Iterator::nth / count / last agree with the std defaults built from the type's own next ----
+     Stated so that the SAME statements hold whether or not the generated table overrides the method (None => True: the default
+     IS what runs).  For Iter the hypothesis hi <= keycap (every position of the window is a valid key) is needed: the default
+     nth builds -- and would panic on -- the keys of the skipped entries, the override does not. *)
+  Definition nxt_of (elem : eterm) (tbl : list method) (strs : list sref) : state -> state * result sref :=
+    fun st => run_named strs try_key elem tbl st "next" 0.
+
+  Definition nth_override_ok (elem : eterm) (tbl : list method) (src : source) (strs : list sref) (lo hi n : N) : Prop :=
+    match find_method "nth" tbl with
+    | None => True
+    | Some m => st_agree (fst (run_method strs try_key elem tbl (state_at src lo hi) m n))
+                         (fst (default_nth (nxt_of elem tbl strs) (N.to_nat n) (state_at src lo hi)))
+                /\ snd (run_method strs try_key elem tbl (state_at src lo hi) m n)
+                   = snd (default_nth (nxt_of elem tbl strs) (N.to_nat n) (state_at src lo hi))
+    end.
+  (* count(self) / last(self) consume the iterator: only the result is compared *)
+  Definition count_override_ok (elem : eterm) (tbl : list method) (src : source) (strs : list sref) (lo hi : N) : Prop :=
+    match find_method "count" tbl with
+    | None => True
+    | Some m => snd (run_method strs try_key elem tbl (state_at src lo hi) m 0)
+                = default_count (nxt_of elem tbl strs) (Datatypes.S (N.to_nat (len_of (state_at src lo hi)))) (state_at src lo hi) 0
+    end.
+  Definition last_override_ok (elem : eterm) (tbl : list method) (src : source) (strs : list sref) (lo hi : N) : Prop :=
+    match find_method "last" tbl with
+    | None => True
+    | Some m => snd (run_method strs try_key elem tbl (state_at src lo hi) m 0)
+                = default_last (nxt_of elem tbl strs) (Datatypes.S (N.to_nat (len_of (state_at src lo hi)))) (state_at src lo hi) None
+    end.
+
+  Ltac ov_cbn :=
+    cbn [find_method String.eqb Ascii.eqb Bool.eqb gen_iter_methods gen_strings_methods gen_iter_source gen_strings_source
+         gen_iter_element state_at run_method run_basic raw_next raw_next_back raw_nth raw_nth_back eval_arg hint_of len_of
+         window_of fst snd].
+  Ltac ov_step :=
+    first
+      [ match goal with
+        | |- context [if ?b then _ else _] =>
+            match b with N.ltb _ _ => first [ replace b with true by lia | replace b with false by lia
+                                            | let E := fresh "E" in destruct b eqn:E ] end
+        end
+      | match goal with
+        | |- context [match nth_error ?l ?i with _ => _ end] =>
+            let E := fresh "En" in destruct (nth_error l i) eqn:E; [| exfalso; apply nth_error_None in E; lia]
+        end ];
+    cbn [fin apply_post eval gen_iter_element option_map mk_iter mk_str fst snd state_at window_of len_of]; unfold Rodeo.try_key;
+    iters_norm.
+  Ltac ov_done :=
+    repeat split; cbn [window_of state_at fst snd];
+    first [ reflexivity | f_equal; lia | intros; exfalso; lia ].
+
+  Theorem gen_iter_next_spec : forall (strs : list sref) (lo hi : N),
+    lo <= hi -> hi <= N.min keycap (N.of_nat (List.length strs)) ->
+    nxt_of gen_iter_element gen_iter_methods strs (state_at gen_iter_source lo hi)
+    = if lo <? hi then (state_at gen_iter_source (lo + 1) hi, ROpt (option_map (mk_iter lo) (nth_error strs (N.to_nat lo))))
+      else (state_at gen_iter_source lo hi, ROpt None).
+  Proof.
+    intros strs lo hi H1 H2. unfold nxt_of, run_named. ov_cbn. unfold Rodeo.try_key.
+    destruct (lo <? hi) eqn:E; [|reflexivity]. repeat ov_step. reflexivity.
+  Qed.
+
+  Theorem gen_strings_next_spec : forall (strs : list sref) (lo hi : N),
+    lo <= hi -> hi <= N.of_nat (List.length strs) ->
+    nxt_of gen_iter_element gen_strings_methods strs (state_at gen_strings_source lo hi)
+    = if lo <? hi then (state_at gen_strings_source (lo + 1) hi, ROpt (option_map (mk_str lo) (nth_error strs (N.to_nat lo))))
+      else (state_at gen_strings_source lo hi, ROpt None).
+  Proof.
+    intros strs lo hi H1 H2. unfold nxt_of, run_named. ov_cbn. unfold Rodeo.try_key.
+    destruct (lo <? hi) eqn:E; [|reflexivity]. repeat ov_step. reflexivity.
+  Qed.
+
+  Theorem gen_iter_nth_override_ok : forall (strs : list sref) (lo hi n : N),
+    lo <= hi -> hi <= N.of_nat (List.length strs) -> hi <= keycap ->
+    nth_override_ok gen_iter_element gen_iter_methods gen_iter_source strs lo hi n.
+  Proof.
+    intros strs lo hi n H1 H2 H3. unfold nth_override_ok.
+    cbn [find_method String.eqb Ascii.eqb Bool.eqb gen_iter_methods]; try exact I;
+    rewrite (default_nth_closed strs _ (state_at gen_iter_source) mk_iter (N.min keycap (N.of_nat (List.length strs)))
+               ltac:(lia) (gen_iter_next_spec strs)) by lia;
+    rewrite N2Nat.id; ov_cbn; unfold Rodeo.try_key; repeat ov_step; ov_done.
+  Qed.
+
+  Theorem gen_iter_count_override_ok : forall (strs : list sref) (lo hi : N),
+    lo <= hi -> hi <= N.of_nat (List.length strs) -> hi <= keycap ->
+    count_override_ok gen_iter_element gen_iter_methods gen_iter_source strs lo hi.
+  Proof.
+    intros strs lo hi H1 H2 H3. unfold count_override_ok.
+    cbn [find_method String.eqb Ascii.eqb Bool.eqb gen_iter_methods]; try exact I;
+    rewrite (default_count_closed strs _ (state_at gen_iter_source) mk_iter (N.min keycap (N.of_nat (List.length strs)))
+               ltac:(lia) (gen_iter_next_spec strs)) by (cbn [gen_iter_source state_at len_of]; lia);
+    ov_cbn; ov_done.
+  Qed.
+
+  Theorem gen_iter_last_override_ok : forall (strs : list sref) (lo hi : N),
+    lo <= hi -> hi <= N.of_nat (List.length strs) -> hi <= keycap ->
+    last_override_ok gen_iter_element gen_iter_methods gen_iter_source strs lo hi.
+  Proof.
+    intros strs lo hi H1 H2 H3. unfold last_override_ok.
+    cbn [find_method String.eqb Ascii.eqb Bool.eqb gen_iter_methods]; try exact I;
+    rewrite (default_last_closed strs _ (state_at gen_iter_source) mk_iter (N.min keycap (N.of_nat (List.length strs)))
+               ltac:(lia) (gen_iter_next_spec strs)) by (cbn [gen_iter_source state_at len_of]; lia);
+    ov_cbn; unfold Rodeo.try_key; iters_norm; repeat ov_step; ov_done.
+  Qed.
+
+  Theorem gen_strings_nth_override_ok : forall (strs : list sref) (lo hi n : N),
+    lo <= hi -> hi <= N.of_nat (List.length strs) ->
+    nth_override_ok gen_iter_element gen_strings_methods gen_strings_source strs lo hi n.
+  Proof.
+    intros strs lo hi n H1 H2. unfold nth_override_ok.
+    cbn [find_method String.eqb Ascii.eqb Bool.eqb gen_strings_methods]; try exact I;
+    rewrite (default_nth_closed strs _ (state_at gen_strings_source) mk_str (N.of_nat (List.length strs))
+               ltac:(lia) (gen_strings_next_spec strs)) by lia;
+    rewrite N2Nat.id; ov_cbn; unfold Rodeo.try_key; repeat ov_step; ov_done.
+  Qed.
+
+  Theorem gen_strings_count_override_ok : forall (strs : list sref) (lo hi : N),
+    lo <= hi -> hi <= N.of_nat (List.length strs) ->
+    count_override_ok gen_iter_element gen_strings_methods gen_strings_source strs lo hi.
+  Proof.
+    intros strs lo hi H1 H2. unfold count_override_ok.
+    cbn [find_method String.eqb Ascii.eqb Bool.eqb gen_strings_methods]; try exact I;
+    rewrite (default_count_closed strs _ (state_at gen_strings_source) mk_str (N.of_nat (List.length strs))
+               ltac:(lia) (gen_strings_next_spec strs)) by (cbn [gen_strings_source state_at len_of]; lia);
+    ov_cbn; ov_done.
+  Qed.
+
+  Theorem gen_strings_last_override_ok : forall (strs : list sref) (lo hi : N),
+    lo <= hi -> hi <= N.of_nat (List.length strs) ->
+    last_override_ok gen_iter_element gen_strings_methods gen_strings_source strs lo hi.
+  Proof.
+    intros strs lo hi H1 H2. unfold last_override_ok.
+    cbn [find_method String.eqb Ascii.eqb Bool.eqb gen_strings_methods]; try exact I;
+    rewrite (default_last_closed strs _ (state_at gen_strings_source) mk_str (N.of_nat (List.length strs))
+               ltac:(lia) (gen_strings_next_spec strs)) by (cbn [gen_strings_source state_at len_of]; lia);
+    ov_cbn; unfold Rodeo.try_key; iters_norm; repeat ov_step; ov_done.
+  Qed.
 End Proofs.
 
 (* ---------------- constructors and callers ---------------- *)
@@ -169,3 +361,11 @@ Print Assumptions gen_strings_plan_eq.
 Print Assumptions gen_iter_exact_size.
 Print Assumptions gen_ctors_eq.
 Print Assumptions gen_callers_eq.
+Print Assumptions gen_iter_next_spec.
+Print Assumptions gen_strings_next_spec.
+Print Assumptions gen_iter_nth_override_ok.
+Print Assumptions gen_iter_count_override_ok.
+Print Assumptions gen_iter_last_override_ok.
+Print Assumptions gen_strings_nth_override_ok.
+Print Assumptions gen_strings_count_override_ok.
+Print Assumptions gen_strings_last_override_ok.
